@@ -133,6 +133,7 @@ def _bare(ctx, xs):
 
 @REG.specfun('NW')
 def _NW(ctx, s):
+    nw_concat(ctx.st, strz(s))          # homomorphism instance when the argument is a concatenation
     return VS(NW(strz(s)))
 
 
@@ -178,11 +179,10 @@ def _W(ctx, buf, a, b):
 
 @REG.specfun('eseq')
 def _eseq(ctx, v):
-    key = id(v)
-    cache = ctx.st.ghost.setdefault('$eseq', {})
-    if key not in cache:
-        cache[key] = as_eseq(v, ctx.st)
-    return cache[key]
+    key = '$eseq:%d' % id(v)          # per path (the ghost map is copied when a state forks)
+    if key not in ctx.st.ghost:
+        ctx.st.ghost[key] = as_eseq(v, ctx.st)
+    return ctx.st.ghost[key]
 
 
 def leaf_of_token(t, st):
@@ -236,7 +236,7 @@ class UExprRep:
 
     def store(self, eng, st, obj, a, v):
         a = self.MAP.get(a, a)
-        if obj.a.get('published'):
+        if st.ghost.get('published:' + obj.a['ref']) is not None:
             eng.oblige('%s#published-expression-not-mutated' % eng.cur.key, st, BoolVal(False), 'A')
         if a == 'contents':
             v = as_eseq(v)
@@ -251,8 +251,9 @@ REG.views['UExpr'].repmap = UExprRep()
 
 def publish(eng, st, obj):
     """the object leaves the function that built it: from here on it is a value e of sort E with str(e) fixed"""
-    if obj.a.get('E') is not None:
-        return obj.a['E']
+    pub = st.ghost.get('published:' + obj.a['ref'])      # per path: states fork, Val objects are shared
+    if pub is not None:
+        return pub
     cls = obj.a['cls']
     e = fresh('e_' + cls.split('.')[-1], E)
     f = st.heap[obj.a['ref']]
@@ -273,9 +274,8 @@ def publish(eng, st, obj):
     st.fact(epos(e) == f['position'].z)
     for fn in PUBLISH_HOOKS:
         fn(eng, st, obj, e, sz, A_, C_)
-    obj.a['E'] = VE(e)
-    obj.a['published'] = True
-    return obj.a['E']
+    st.ghost['published:' + obj.a['ref']] = VE(e)
+    return VE(e)
 
 
 PUBLISH_HOOKS = []
